@@ -176,13 +176,16 @@ def report_transform_inputs(prog, rep, pid, interps):
     stored values (a buffer re-bound to its own FFT and only partly rewritten: the zero padding is gone after the first use)"""
     n = 0
     bad = {}
+    uninit = {}
     for itp in interps:
         for e in itp.events:
             if e[0] == 'fft' and isinstance(e[6], type(None)) is False and getattr(e[6], 'cover', None) is not None:
                 n += 1
             elif e[0] == 'fft-stale-input':
                 bad.setdefault((e[3], normalise(e[1])), (e[1], e[2]))
-    if not n and not bad:
+            elif e[0] == 'fft-uninit-input':
+                uninit.setdefault((e[2], normalise(e[1])), e[1])
+    if not n and not bad and not uninit:
         return
     rep.rule('clean-transform-input', 'for every transform whose input buffer is tracked piece by piece (allocated by zeros, written by '
              'slice stores, possibly re-bound to a transform output inside a loop): in no state reaching the call does the buffer hold '
@@ -192,7 +195,12 @@ def report_transform_inputs(prog, rep, pid, interps):
         rep.violation('clean-transform-input', fn, text, 'on a later pass of the loop the transformed buffer is %s: part of it is the output '
                       'of the previous transform (the name was re-bound to its own FFT and only partly rewritten), so the sequence that '
                       'is transformed is not the zero-padded vector' % desc, loc(f.mod, node) if f is not None else '')
-    if not bad:
+    for (fn, text), node in sorted(uninit.items(), key=lambda kv: kv[0]):
+        f = _func(prog, fn)
+        rep.violation('clean-transform-input', fn, text, 'the transformed buffer was allocated with numpy.empty and is only partly written '
+                      'before the transform: the remaining entries are whatever the allocator returned (zeros in a fresh process, an '
+                      'earlier result after a few calls), not the zero padding', loc(f.mod, node) if f is not None else '')
+    if not bad and not uninit:
         rep.proved('clean-transform-input', pid, 'transform inputs', '%d transform calls on tracked buffers: none mixes an earlier '
                    'spectrum with new values' % n)
 
@@ -339,8 +347,171 @@ def report_identity_literals(prog, rep, pid):
         rep.proved('no-identity-literal', ','.join(mods), 'comparisons', '%d comparisons examined: identity is used only with None / True / False' % n)
 
 
+ITER_MAKERS = ('map', 'zip', 'filter', 'enumerate', 'reversed', 'iter', 'islice', 'chain', 'accumulate', 'product', 'starmap',
+               'zip_longest', 'takewhile', 'dropwhile', 'compress', 'pairwise', 'count', 'cycle', 'repeat')
+ITER_CONSUMERS = ('list', 'tuple', 'sum', 'max', 'min', 'sorted', 'set', 'frozenset', 'array', 'fromiter', 'any', 'all', 'deque',
+                  'reduce', 'join', 'dict', 'extend')
+
+
+def report_iterators(prog, rep, pid):
+    """`single-pass-iterator`: a one-shot iterator (map / zip / enumerate / reversed / itertools.* / a generator expression) bound
+    to a name is consumed once: a second loop over it, or a loop over it inside another loop that does not rebuild it, sees
+    nothing and silently skips its body."""
+    mods = [m for m in _property_modules(pid) if m in prog.modules]
+    if not mods:
+        return
+    n = 0
+    bad = 0
+
+    def parents(root):
+        par = {}
+        for x in ast.walk(root):
+            for fld, val in ast.iter_fields(x):
+                kids = val if isinstance(val, list) else [val]
+                for k in kids:
+                    if isinstance(k, ast.AST):
+                        par[id(k)] = (x, fld)
+        return par
+    for m in mods:
+        mod = prog.modules[m]
+        defs = [(fn, node) for fn, node in mod.funcs.items()]
+        for cn, cnode in mod.classes.items():
+            defs += [(cn + '.' + b.name, b) for b in cnode.body if isinstance(b, ast.FunctionDef)]
+        for fq, f in defs:
+            par = parents(f)
+            makers = {}
+            for x in ast.walk(f):
+                if isinstance(x, ast.Assign) and len(x.targets) == 1 and isinstance(x.targets[0], ast.Name):
+                    v = x.value
+                    is_it = isinstance(v, ast.GeneratorExp)
+                    if isinstance(v, ast.Call):
+                        fn_ = v.func
+                        nm = fn_.attr if isinstance(fn_, ast.Attribute) else getattr(fn_, 'id', None)
+                        is_it = nm in ITER_MAKERS
+                    makers.setdefault(x.targets[0].id, []).append((x, is_it))
+            for name, assigns in makers.items():
+                if len(assigns) != 1 or not assigns[0][1]:
+                    continue          # re-bound names are not judged
+                asg = assigns[0][0]
+                n += 1
+                sites = []
+                for x in ast.walk(f):
+                    if isinstance(x, ast.Name) and x.id == name and isinstance(x.ctx, ast.Load):
+                        p_, fld = par.get(id(x), (None, None))
+                        cons = False
+                        if isinstance(p_, (ast.For, ast.comprehension)) and fld == 'iter':
+                            cons = True
+                        elif isinstance(p_, ast.Starred):
+                            cons = True
+                        elif isinstance(p_, ast.Call) and fld == 'args':
+                            fn_ = p_.func
+                            nm = fn_.attr if isinstance(fn_, ast.Attribute) else getattr(fn_, 'id', None)
+                            cons = nm in ITER_CONSUMERS or nm in ITER_MAKERS
+                        if cons:
+                            sites.append(x)
+
+                def chain_of(node):
+                    out = []
+                    cur = node
+                    while id(cur) in par:
+                        p_, fld = par[id(cur)]
+                        out.append((p_, fld))
+                        cur = p_
+                    return out
+                achain = {id(p_) for p_, _f in chain_of(asg)}
+                problem = None
+                for sx in sites:
+                    # consumed inside a loop that does not contain the assignment: every pass after the first sees nothing
+                    # (being the loop's own iterable is a single consumption; the body / the inner loops are not)
+                    for p_, fld in chain_of(sx):
+                        if isinstance(p_, (ast.For, ast.While)) and id(p_) not in achain and fld in ('body', 'orelse', 'test') \
+                                or isinstance(p_, (ast.ListComp, ast.GeneratorExp, ast.SetComp, ast.DictComp)) and fld == 'elt' and id(p_) not in achain:
+                            problem = (sx, 'it is consumed inside a loop that does not rebuild it: only the first pass of that loop sees any item')
+                            break
+                    if problem:
+                        break
+                if not problem and len(sites) >= 2:
+                    for i_ in range(len(sites)):
+                        for j_ in range(i_ + 1, len(sites)):
+                            ca, cb = chain_of(sites[i_]), chain_of(sites[j_])
+                            arms_a = {id(p_): fld for p_, fld in ca if isinstance(p_, ast.If) and fld in ('body', 'orelse')}
+                            arms_b = {id(p_): fld for p_, fld in cb if isinstance(p_, ast.If) and fld in ('body', 'orelse')}
+                            exclusive = any(k in arms_b and arms_b[k] != v for k, v in arms_a.items())
+                            if not exclusive:
+                                problem = (sites[j_], 'it was already consumed at line %d: this second pass sees no item' % sites[i_].lineno)
+                                break
+                        if problem:
+                            break
+                if problem:
+                    bad += 1
+                    sx, why = problem
+                    rep.violation('single-pass-iterator', '%s.%s' % (m, fq), '%s = %s' % (name, normalise(asg.value)[:50]),
+                                  '`%s` is a one-shot iterator; %s, so the statements that depend on it are silently skipped'
+                                  % (name, why), 'src/spectrum/%s.py:%d' % (m, sx.lineno))
+    rep.rule('single-pass-iterator', 'a name bound once to map / zip / enumerate / reversed / itertools.* / a generator expression is consumed '
+             'at most once, and not inside a loop that does not rebuild it')
+    if not bad:
+        rep.proved('single-pass-iterator', ','.join(mods), 'iterator-valued names', '%d names bound to one-shot iterators: each consumed once' % n)
+
+
+SINGLE = frozenset(['f', 'F', 'f4', 'f2', 'c8', 'e', 'float32', 'complex64', 'single', 'csingle', 'half', 'float16', 'singlecomplex'])
+
+
+def report_precision(prog, rep, pid):
+    """`double-precision-buffers`: no array of the anchored modules is created in (or cast to) single / half precision: a float32 /
+    complex64 work buffer silently rounds every value stored in it to ~1e-7 relative (a deep notch of an MA spectrum, a small
+    reflection coefficient are then wrong in the leading digits), whatever the precision of the data."""
+    mods = [m for m in _property_modules(pid) if m in prog.modules]
+    if not mods:
+        return
+    n = 0
+    bad = 0
+
+    def single(e):
+        if isinstance(e, ast.Constant) and isinstance(e.value, str):
+            return e.value in SINGLE
+        if isinstance(e, ast.Attribute):
+            return e.attr in SINGLE
+        if isinstance(e, ast.Name):
+            return e.id in SINGLE
+        return False
+    for m in mods:
+        tree = prog.modules[m].tree
+        owner = {}
+        for f in ast.walk(tree):
+            if isinstance(f, (ast.FunctionDef, ast.AsyncFunctionDef)):
+                for x in ast.walk(f):
+                    owner.setdefault(id(x), f.name)
+        for x in ast.walk(tree):
+            if not isinstance(x, ast.Call):
+                continue
+            fn_ = x.func
+            nm = fn_.attr if isinstance(fn_, ast.Attribute) else getattr(fn_, 'id', None)
+            cands = [k.value for k in x.keywords if k.arg == 'dtype']
+            if nm in ('zeros', 'ones', 'empty', 'full', 'array', 'asarray', 'zeros_like', 'empty_like', 'ones_like', 'arange', 'linspace') and len(x.args) >= 2:
+                cands.append(x.args[-1])
+            if nm == 'astype' and x.args:
+                cands.append(x.args[0])
+            if nm in SINGLE and len(nm) > 2 and x.args:
+                cands.append(fn_)          # np.float32(x)
+            if not cands:
+                continue
+            n += 1
+            if any(single(c_) for c_ in cands):
+                bad += 1
+                rep.violation('double-precision-buffers', '%s.%s' % (m, owner.get(id(x), '<module>')), normalise(x)[:70],
+                              'a single- (or half-) precision array on the path of the estimate: every value stored in it is rounded to '
+                              '~7 significant digits, so results deviate from the double-precision definition by 1e-7 relative and by '
+                              'much more where terms cancel', 'src/spectrum/%s.py:%d' % (m, x.lineno))
+    rep.rule('double-precision-buffers', 'no array creation / cast with a float32 / complex64 / half dtype in the anchored modules')
+    if not bad:
+        rep.proved('double-precision-buffers', ','.join(mods), 'dtype arguments', '%d explicit dtypes: none is single or half precision' % n)
+
+
 def report(prog, rep, pid, interps):
     report_shared_results(prog, rep, pid)
+    report_precision(prog, rep, pid)
+    report_iterators(prog, rep, pid)
     report_identity_literals(prog, rep, pid)
     report_transform_inputs(prog, rep, pid, interps)
     report_forwarding(prog, rep, pid)
